@@ -512,3 +512,49 @@ def mon_c11(run, world):
                         if pt < s + d:
                             bad.append("%s placed at %s, before its running parent %s finishes at %s" % (t, pt, p, s + d))
     return bad
+
+
+def mon_c19(run, world):
+    """instantiation seen end to end: the number of TaskGraphs each described job graph (each replica under
+    --replication_factor) releases during a whole simulation is the number of invocations its description declares —
+    never more; exactly that many for the policies that release everything up front, and for closed_loop as soon as
+    every released invocation of the job has run to completion; the first `concurrency` closed-loop invocations are
+    released at the start time"""
+    bad = []
+    if not world or not run["log"]:
+        return bad
+    rep = int(world["flags"].get("replication_factor", 1) or 1)
+    graphs = {}
+    for e in run["log"]:
+        if e[0] == "graph":
+            graphs[e[1]["graph"]] = e[1]
+    final = {x[0]: x[1] for x in run["final"]}
+    for g in world["workload"]["graphs"]:
+        pol = g.get("release_policy")
+        n = g.get("invocations")
+        if pol not in ("fixed", "poisson", "gamma", "closed_loop") or n is None:
+            continue
+        names = [g["name"]] if rep <= 1 else ["%s_%d" % (g["name"], i) for i in range(1, rep + 1)]
+        for jn in names:
+            mine = {k: v for k, v in graphs.items() if k.rsplit("@", 1)[0] == jn}
+            c = len(mine)
+            if c > n:
+                bad.append("job graph %s released %d TaskGraphs, its description declares %d invocations (%s)" % (jn, c, n, pol))
+                continue
+            if pol != "closed_loop":
+                if c != n:
+                    bad.append("job graph %s (%s) released %d TaskGraphs, its description declares %d invocations" % (jn, pol, c, n))
+                continue
+            first = min(n, g.get("concurrency", 1))
+            start = g.get("start", 0)
+            at_start = sum(1 for v in mine.values() if v["release"] == start)
+            if c < first or at_start < first:
+                bad.append("closed-loop job graph %s: %d TaskGraphs released at the start time %s, min(concurrency, invocations) = %d"
+                           % (jn, at_start, start, first))
+                continue
+            done = run["status"] == "ended" and all(
+                final.get(t["name"]) == "COMPLETED" for v in mine.values() for t in v["tasks"] if not t["children"])
+            if done and c != n:
+                bad.append("closed-loop job graph %s: every released invocation completed, yet only %d of the %d declared "
+                           "invocations were released" % (jn, c, n))
+    return bad
